@@ -64,7 +64,16 @@ Sub-checks
             quadrants have probability 0), independent and complete-dependence copula, one one-sided margin x {fixed 3 / 5
             (refined once too), credit symmetric / asymmetric, uniform by model truncation (a model whose left bound falls
             within h keeps ONE left point), geometric (model) and geometric with bounds, hand-made one-point half axes}.
-            3-d: fixed 3^3, 5^3, hand-made one-point half axis (4^3). 4-d: fixed 3^4 (adapted tree; inversion in thorough).
+            MARKEDLY FEWER POINTS ON ONE SIDE of the origin than on the other, several on both, AND THE MIRROR IMAGE (the
+            shells of the n-d pairing then leave the short side - negative coordinates on the left, coordinates >= size on
+            the right - long before the long side is exhausted): hand-made axes 2 / 6 and 6 / 2 (uniform steps), 3 / 9 and
+            9 / 3 (non-uniform steps), 2 / 6 with a different axis per coordinate in both orders, and the uniform grid the
+            library derives (truncation probability 0.999, h = 0.1) from HEM margins with small negative resp. small
+            positive jumps (2 / 7 and 7 / 2 points); thorough: also the other Clayton pair, refined once, p = 0.99999
+            (3 / 12).
+            3-d: fixed 3^3, 5^3, hand-made one-point half axis (4^3), hand-made 2 / 5 and 5 / 2 points (8^3: the long side is
+            three points longer, so that a complete shell holds coordinates two beyond the short end).
+            4-d: fixed 3^4 (adapted tree; inversion in thorough).
             For the samplers that memoise (inversion, adapted trees; unrefined grids) the law is recovered once more on a sampler
             built AFTER a sampler of another model was built and used on the same grid object, and that other sampler
             must answer as before afterwards.
@@ -82,7 +91,8 @@ Sub-checks
             batch call on a fresh one.
  history    explicit-state search (BFS) over operation histories on ONE sampler object, for every method (inversion with the
             library's and with shrunk logs, adapted trees 1-d / n-d driven with a RE-USED argument array, alias, tree,
-            Huffman, table), 1-d, 2-d and 3-d chains, including a one-point half axis and the one-sided model.
+            Huffman, table), 1-d, 2-d and 3-d chains, including a one-point half axis, a 2-d grid with 2 points left / 6 right
+            of the origin (inversion with a shrunk log, adapted tree) and the one-sided model.
             Events: a draw at every u of the menu (one u per state interval, the first u of a middle piece, 0, top;
             thinned to 14 / 12 / 10 / 8 values with the cost of the chain); a batch call sample(3) on a sub-menu of 5;
             and, at most once per history and anywhere before its last draw, an operation without a draw:
@@ -103,7 +113,8 @@ Sub-checks
             _index_after_last_logged, _switch/_kk if they exist ...) + for cache-only samplers the set of u drawn + the
             pending operation when the last event was one.
 Exclusions (statement silent / not reachable): grid.refine() after the sampler was built (the target law itself changes);
- n-d probability-step grids (their middle() is one-dimensional; C13); model-truncated grids for one-sided models (the
+ n-d probability-step grids (their middle() is one-dimensional; C13); n-d grids whose axes have UNEQUAL LENGTHS (no grid class
+ of the library builds them: "fixed length across all axes", spatial.py; a hand-made one raises IndexError); model-truncated grids for one-sided models (the
  truncation helper divides by the mass of the empty side); a complete recovery of the law on chains of >= 10 001 points
  (chainbig judges selected states); chains of more than 32768 states through the factory (the table method's exact law on a
  dense vector of that length costs 10^8 draws: the size classes are covered on the sampler classes themselves, rawbig);
@@ -308,6 +319,37 @@ ONE_LEFT = {"kind": "custom", "label": "one-left-point", "h": 0.1, "axis": [-0.1
 ONE_RIGHT = {"kind": "custom", "label": "one-right-point", "h": 0.1, "axis": [-0.3, -0.2, -0.1, 0.0, 0.1], "origin": 3}
 ONE_STATE = {"kind": "custom", "label": "one-state", "h": 0.1, "axis": [0.0, 0.1], "origin": 0}
 ONE_LEFT_3D = {"kind": "custom", "label": "one-left-point", "h": 0.1, "axis": [-0.1, 0.0, 0.1, 0.2], "origin": 1}
+# markedly FEWER points on one side of the origin than on the other (several on both sides), and the mirror image: the shells
+# of the n-d pairing reach beyond the short side long before the long side is exhausted, so the admissibility test of the
+# enumeration is asked about coordinates beyond the LEFT end (negative) resp. beyond the RIGHT end (>= size) of an axis
+FEW_LEFT = {"kind": "custom", "label": "few-left-points", "h": 0.1,
+            "axis": [-0.2, -0.1, 0.0, 0.1, 0.2, 0.3, 0.4, 0.5, 0.6], "origin": 2}
+FEW_RIGHT = {"kind": "custom", "label": "few-right-points", "h": 0.1,
+             "axis": [-0.6, -0.5, -0.4, -0.3, -0.2, -0.1, 0.0, 0.1, 0.2], "origin": 6}
+# non-uniform steps, 3 against 9 points
+FEW_LEFT_NU = {"kind": "custom", "label": "few-left-points-nonuniform", "h": 0.05,
+               "axis": [-0.3, -0.15, -0.05, 0.0, 0.05, 0.1, 0.15, 0.25, 0.35, 0.5, 0.7, 0.9, 1.2], "origin": 3}
+FEW_RIGHT_NU = {"kind": "custom", "label": "few-right-points-nonuniform", "h": 0.05,
+                "axis": [-1.2, -0.9, -0.7, -0.5, -0.35, -0.25, -0.15, -0.1, -0.05, 0.0, 0.05, 0.15, 0.3], "origin": 9}
+# different axes per coordinate (same number of points and same index of the origin, as in every grid the library builds: axes
+# of unequal LENGTH are outside its domain - "fixed length across all axes", spatial.py), both orders
+FEW_LEFT_MIXED = {"kind": "custom", "label": "few-left-points-axes-differ", "h": 0.05, "origin": 2,
+                  "axes": [[-0.2, -0.1, 0.0, 0.1, 0.2, 0.3, 0.4, 0.5, 0.6], [-0.15, -0.05, 0.0, 0.05, 0.1, 0.2, 0.35, 0.55, 0.8]]}
+FEW_LEFT_MIXED_SWAPPED = {"kind": "custom", "label": "few-left-points-axes-differ-swapped", "h": 0.05, "origin": 2,
+                          "axes": FEW_LEFT_MIXED["axes"][::-1]}
+# (3-d: the long side exceeds the short one by three points, so that a complete shell holds coordinates two beyond the short end)
+FEW_LEFT_3D = {"kind": "custom", "label": "few-left-points", "h": 0.1, "axis": [-0.2, -0.1, 0.0, 0.1, 0.2, 0.3, 0.4, 0.5], "origin": 2}
+FEW_RIGHT_3D = {"kind": "custom", "label": "few-right-points", "h": 0.1, "axis": [-0.5, -0.4, -0.3, -0.2, -0.1, 0.0, 0.1, 0.2], "origin": 5}
+# margins whose jumps of one sign are much smaller than those of the other: the uniform grid that the library derives from the
+# model (truncation probability 0.999, h = 0.1) holds 2 points on the short side and 7 on the long one
+HEM_SMALL_NEG_1 = {"family": "hem", "exp": False, "label": "hem-small-negative-jumps",
+                   "params": {"sigma": 0.1, "p": 0.6, "eta1": 10.0, "eta2": 50.0, "intensity": 3.0}}
+HEM_SMALL_NEG_2 = {"family": "hem", "exp": False, "label": "hem-small-negative-jumps",
+                   "params": {"sigma": 0.1, "p": 0.4, "eta1": 12.0, "eta2": 50.0, "intensity": 4.0}}
+HEM_SMALL_POS_1 = {"family": "hem", "exp": False, "label": "hem-small-positive-jumps",
+                   "params": {"sigma": 0.1, "p": 0.4, "eta1": 50.0, "eta2": 10.0, "intensity": 3.0}}
+HEM_SMALL_POS_2 = {"family": "hem", "exp": False, "label": "hem-small-positive-jumps",
+                   "params": {"sigma": 0.1, "p": 0.6, "eta1": 50.0, "eta2": 12.0, "intensity": 4.0}}
 METHODS_1D = ["ALIAS", "TABLE", "BINARYSEARCHTREE", "HUFFMANNTREE", "INVERSION", "BINARYSEARCHTREEADAPTED1D"]
 METHODS_ND = ["INVERSION", "BINARYSEARCHTREEADAPTED"]
 CLAYTON = {"kind": "clayton", "theta": 0.7, "eta": 0.3}
@@ -420,6 +462,27 @@ def chain_specs(tier):
     addn(2, short_left, {"kind": "uniform", "h": 0.1, "p": 0.9}, 0)
     if thorough:
         addn(2, cms[0], {"kind": "uniform", "h": 0.1, "p": 0.99999}, 0)
+    # markedly fewer points on one side of the origin than on the other, and the mirror image: hand-made axes and the
+    # uniform grid the library derives from margins with small jumps of one sign
+    for g in (FEW_LEFT, FEW_RIGHT):
+        addn(2, cms[0], g, 0)
+    for g in (FEW_LEFT_NU, FEW_RIGHT_NU):
+        addn(2, cms[1], g, 0)
+    for g in (FEW_LEFT_MIXED, FEW_LEFT_MIXED_SWAPPED):
+        addn(2, cms[0], g, 0)
+    small_neg = {"margins": [HEM_SMALL_NEG_1, HEM_SMALL_NEG_2], "copula": CLAYTON}
+    small_pos = {"margins": [HEM_SMALL_POS_1, HEM_SMALL_POS_2], "copula": CLAYTON}
+    for cm in (small_neg, small_pos):
+        addn(2, cm, {"kind": "uniform", "h": 0.1, "p": 0.999}, 0)
+        if thorough:
+            addn(2, cm, {"kind": "uniform", "h": 0.1, "p": 0.99999}, 0)
+            addn(2, cm, {"kind": "uniform", "h": 0.1, "p": 0.999}, 1)
+    if thorough:
+        for g in (FEW_LEFT, FEW_RIGHT):
+            addn(2, cms[1], g, 0)
+            addn(2, cms[0], g, 1)
+        for g in (FEW_LEFT_NU, FEW_RIGHT_NU):
+            addn(2, cms[0], g, 0)
     # zero-probability states: one-sided margin, independent copula (only the axes carry mass), complete dependence
     addn(2, {"margins": [HEM_POS, "hem"], "copula": CLAYTON}, {"kind": "fixed", "h": 0.1, "n": 5}, 0)
     addn(2, {"margins": ["vg", HEM_POS], "copula": CLAYTON}, ONE_RIGHT, 0)
@@ -428,6 +491,8 @@ def chain_specs(tier):
         addn(2, {"margins": ["hem", "vg"], "copula": {"kind": "dependent"}}, {"kind": "fixed", "h": 0.1, "n": 3}, 0)
     cm3 = {"margins": ["hem", "vg", "cgmy05"], "copula": CLAYTON}
     for g in ({"kind": "fixed", "h": 0.1, "n": 3}, {"kind": "fixed", "h": 0.1, "n": 5}, ONE_LEFT_3D):
+        addn(3, cm3, g, 0)
+    for g in (FEW_LEFT_3D, FEW_RIGHT_3D):
         addn(3, cm3, g, 0)
     if thorough:
         addn(3, {"margins": ["hem", HEM_POS, "vg"], "copula": CLAYTON}, {"kind": "fixed", "h": 0.1, "n": 3}, 0)
@@ -455,6 +520,7 @@ def history_specs(tier):
         (cm, 2, {"kind": "fixed", "h": 0.1, "n": 3, "refine": 0}, (None, 3), 12),
         (cm, 2, credit2, (None, 3, 30) if thorough else (30,), 10),
         (cm, 2, dict(ONE_LEFT, refine=0), (None, 3), 10),
+        (cm, 2, dict(FEW_LEFT, refine=0), (None, 30) if thorough else (30,), 10),
         (cm3, 3, {"kind": "fixed", "h": 0.1, "n": 3, "refine": 0}, (None, 3) if thorough else (None,), 8),
     ):
         for storage in storages:
@@ -1031,8 +1097,8 @@ def make_grid_x(gspec, model, dim):
     if gspec["kind"] == "custom":
         from rpylib.grid.spatial import CTMCGrid
 
-        g = CTMCGrid(h=gspec["h"], origin_coordinate=gspec["origin"],
-                     axes=[np.array(gspec["axis"], dtype=float) for _ in range(dim)])
+        axes = gspec["axes"] if "axes" in gspec else [gspec["axis"]] * dim
+        g = CTMCGrid(h=gspec["h"], origin_coordinate=gspec["origin"], axes=[np.array(a, dtype=float) for a in axes])
         for _ in range(gspec.get("refine", 0)):
             g.refine()
         return g
@@ -1705,9 +1771,14 @@ def _history(sh, case):
             menu_us += [pieces[len(pieces) // 2][0], 0.0, math.nextafter(hi, -math.inf)]
             menu_us = sorted({u for u in menu_us if 0.0 <= u < hi})  # (the middle of a last piece of one float rounds to hi)
             # the whole menu (every piece), for the long run at the end: the answers of the first sampler
+            # (the mid-point of a piece of ONE float rounds to the first float of the next piece: the piece's own first float
+            # is taken then)
             for (s, st), nx in zip(pieces, pieces[1:] + [(hi, None)]):
-                if s + (nx[0] - s) / 2 < hi:
-                    expected[s + (nx[0] - s) / 2] = st
+                mid = s + (nx[0] - s) / 2
+                if not mid < nx[0]:
+                    mid = s
+                if mid < hi:
+                    expected[mid] = st
             if len(menu_us) > nmenu:
                 # spread over the whole of [0, hi): the draws beyond the memoised prefix are the interesting ones
                 idx = sorted({round(i * (len(menu_us) - 1) / (nmenu - 1)) for i in range(nmenu)})
